@@ -13,6 +13,7 @@ import (
 	"encoding/json"
 	"fmt"
 	"math/rand"
+	"os"
 	"regexp"
 	"runtime"
 	"sort"
@@ -111,6 +112,7 @@ type runner struct {
 	mu       sync.Mutex
 	rowSeen  map[uint64]struct{}
 	samples  int
+	byOp     map[string]int64
 }
 
 // runWave runs the programs and returns the groups of cases that produced no output.
@@ -397,6 +399,7 @@ func run(c *fw.Ctx) error {
 	// producer: enumerate -> programs -> waves
 	waves := make(chan []*prog, 2)
 	pinned := []Case{}
+	exclCount := map[string]int{}
 	go func() {
 		defer close(waves)
 		var cur []Case
@@ -415,6 +418,7 @@ func run(c *fw.Ctx) error {
 		}
 		enumerate(tb, sel, func(k Case) {
 			if ex := excluded(&k); ex != "" {
+				exclCount[strings.Fields(ex)[0]]++
 				if pinWanted(ex, &k) {
 					pinned = append(pinned, k)
 				}
@@ -434,6 +438,12 @@ func run(c *fw.Ctx) error {
 	var natSample []*prog
 	tRun := time.Now()
 	var tWave time.Duration
+	// development aid: only TLC, enumeration and the native validation (the replay of the
+	// thorough tier does not depend on the seed; the natively validated sample does)
+	skipReplay := os.Getenv("VERIF_C02_SKIP_REPLAY") != ""
+	if skipReplay {
+		c.Extra["replay_skipped"] = true
+	}
 	for wave := range waves {
 		tw := time.Now()
 		for _, p := range wave {
@@ -441,6 +451,9 @@ func run(c *fw.Ctx) error {
 			if !c.Quick() && rng.Intn(100) < 2 {
 				natSample = append(natSample, p)
 			}
+		}
+		if skipReplay {
+			continue
 		}
 		missing := r.runWave(wave)
 		if err := r.resolve(missing); err != nil {
@@ -465,9 +478,12 @@ func run(c *fw.Ctx) error {
 	c.TracesVsImpl += r.cases
 	c.Evaluations += r.cases - int64(len(r.rowSeen)) // Count() added one per distinct row
 	c.Extra["cases"] = r.cases
+	c.Extra["cases_by_class_and_operator"] = r.byOp
 	c.Extra["programs"] = r.programs
 	c.Extra["bisection_runs"] = r.bisects
 	c.Extra["pinned_cases_of_excluded_constructs"] = len(pinned)
+	c.Extra["cases_of_excluded_constructs_by_finding"] = exclCount
+	c.Extra["exhaustive_except"] = "constructs of findings F-C02-1, F-C02-2 (kind int only), F-C02-3 are kept out of the bulk programs (Excluded_F_C02_*); a pinned sample of them runs alone; 'drop' = untyped-constant shift operand with a negative count (two findings at once), not run"
 	c.Exhaustive = !c.Quick()
 	if c.Quick() {
 		c.Extra["exhaustive_parts"] = "reduced boundary set {min,max,-1,0,1,2^(w/2)} x all kinds x all operators x all forms x all contexts; string/bool/complex complete"
@@ -488,6 +504,10 @@ func (r *runner) account(cases []Case) {
 	for i := range cases {
 		k := &cases[i]
 		r.cases++
+		if r.byOp == nil {
+			r.byOp = map[string]int64{}
+		}
+		r.byOp[k.Cls+" "+k.Op]++
 		h := hash64(k.Row)
 		if _, ok := r.rowSeen[h]; !ok {
 			r.rowSeen[h] = struct{}{}
@@ -528,11 +548,12 @@ func buildTables(c *fw.Ctx) (*tables, error) {
 		module, spec, fams, invs string
 		workers                  int
 	}
+	// 8 TLC worker threads in total (the machine is shared)
 	runs := []runSpec{
-		{"BV", "Spec", `{"div"}`, "TypeOK SaneDiv Emit", 6},
-		{"BV", "Spec", `{"arith", "unary", "conv", "str", "bool"}`, "TypeOK SaneArith SaneUnary SaneConv SaneStr Emit", 4},
-		{"BV", "Spec", `{"cmp", "shift"}`, "TypeOK SaneCmp SaneShift Emit", 4},
-		{"FloatSym", "FSpec", `{"farith", "fconv", "itof", "carith"}`, "SaneFArith SaneFConv SaneIToF SaneCArith FEmit", 4},
+		{"BV", "Spec", `{"div"}`, "TypeOK SaneDiv Emit", 3},
+		{"BV", "Spec", `{"arith", "unary", "conv", "strconv", "str", "bool"}`, "TypeOK SaneArith SaneUnary SaneConv SaneStr SaneStrConv Emit", 2},
+		{"BV", "Spec", `{"cmp", "shift"}`, "TypeOK SaneCmp SaneShift Emit", 2},
+		{"FloatSym", "FSpec", `{"farith", "fconv", "itof", "carith"}`, "SaneFArith SaneFConv SaneIToF SaneCArith FEmit", 1},
 	}
 	var mu sync.Mutex
 	tb := &tables{}
@@ -675,7 +696,6 @@ func validateNative(c *fw.Ctx, tb *tables, sample []*prog) error {
 	c.Extra["native_validated_sample_programs"] = len(sample)
 	c.Extra["native_validated_cases"] = checked
 	c.Extra["native_wall_s"] = time.Since(t0).Seconds()
-	c.DisagreeChk += int64(checked)
 	return nil
 }
 
